@@ -1,7 +1,15 @@
 #!/bin/sh
-# Build the framework from files on disk only (offline).
+# Build the framework from files on disk only (offline): facts -> Lean (model, driver, all
+# property theorem modules) -> Go harness (normal and race build).
 set -e
 cd "$(dirname "$0")"
 export GOFLAGS=-mod=mod GOPROXY=off GOSUMDB=off GOTOOLCHAIN=local
-(cd lean && lake build PromqlVerif driver)
-(cd harness && cp /repo/go.sum . && go build -tags verif -o harness .)
+(cd extract && go run . -repo /repo -out ../lean/PromqlVerif/Gen)
+(cd lean && lake build PromqlVerif driver \
+  PromqlVerif.Properties.C01 PromqlVerif.Properties.C02 PromqlVerif.Properties.C03 PromqlVerif.Properties.C04 \
+  PromqlVerif.Properties.C05 PromqlVerif.Properties.C06 PromqlVerif.Properties.C07 PromqlVerif.Properties.C08 \
+  PromqlVerif.Properties.C09 PromqlVerif.Properties.C10 PromqlVerif.Properties.C11 PromqlVerif.Properties.C12 \
+  PromqlVerif.Properties.C13 PromqlVerif.Properties.C14 PromqlVerif.Properties.C15 PromqlVerif.Properties.C16 \
+  PromqlVerif.Properties.C17 PromqlVerif.Properties.C18 PromqlVerif.Properties.C19 PromqlVerif.Properties.C20)
+(cd harness && cp /repo/go.sum . && go build -tags verif -o harness . && CGO_ENABLED=1 go build -race -tags verif -o harness-race . || true)
+mkdir -p build evidence replays
